@@ -68,6 +68,41 @@ def search(ck, tier, seed):
                     elif ierr > (5e-2 if e["umnn"] else 5e-4) * kin * kappa:
                         ck.finding("precision:float32-disagrees-with-float64:%s" % e["name"],
                                    "%s inverse: relative error %.3g" % (e["name"], ierr), case)
+    # elementwise nonlinearities on a grid of moderate inputs (|x| <= 5, temperatures 1 and 3; unit-interval maps on
+    # [1e-3, 1 - 1e-3]): the float32 log-abs-det must be finite and within 1e-3 (1 + |value|) of the float64 one
+    from nflows.transforms import nonlinearities as nl_, base as base_
+    grid = torch.tensor([-5.0, -4.0, -3.0, -2.0, -1.0, -0.3, 0.0, 0.3, 1.0, 2.0, 3.0, 4.0, 5.0])
+    unit = torch.tensor([1e-3, 1e-2, 0.1, 0.3, 0.5, 0.7, 0.9, 0.99, 0.999])
+    elem = [("Sigmoid(T=1)", lambda: nl_.Sigmoid(), grid), ("Sigmoid(T=3)", lambda: nl_.Sigmoid(temperature=3.0), grid),
+            ("Sigmoid(T=0.3)", lambda: nl_.Sigmoid(temperature=0.3), grid), ("Tanh", lambda: nl_.Tanh(), grid),
+            ("LogTanh", lambda: nl_.LogTanh(1.0), grid), ("LeakyReLU", lambda: nl_.LeakyReLU(0.1), grid), ("Exp", lambda: nl_.Exp(), grid),
+            ("CauchyCDF", lambda: nl_.CauchyCDF(), grid), ("Logit(T=1)", lambda: nl_.Logit(), unit), ("Logit(T=3)", lambda: nl_.Logit(temperature=3.0), unit),
+            ("CauchyCDFInverse", lambda: nl_.CauchyCDFInverse(), unit), ("Inverse(Tanh)", lambda: base_.InverseTransform(nl_.Tanh()), unit * 2 - 1)]
+    for name, mk, pts in elem:
+        t32 = mk()
+        t64 = copy.deepcopy(t32).double()
+        for direction in ("forward", "inverse"):
+            ck.case(("c19-elementwise", name, direction), nontrivial=True)
+            case = {"search": "elementwise-grid", "transform": name, "direction": direction}
+            with torch.no_grad():
+                if direction == "forward":
+                    a, b = attempt(t32.forward, pts[:, None]), attempt(t64.forward, pts[:, None].double())
+                else:
+                    y64 = t64.forward(pts[:, None].double())[0]
+                    a, b = attempt(t32.inverse, y64.float()), attempt(t64.inverse, y64.float().double())
+            if a[0] != "ok" or b[0] != "ok":
+                continue       # rounding to float32 may leave an open domain; reported by the catalogue part when it matters
+            l32, l64 = a[1][1].double(), b[1][1]
+            if not bool(torch.isfinite(l32).all()) and bool(torch.isfinite(l64).all()):
+                i = int(torch.nonzero(~torch.isfinite(l32))[0])
+                ck.finding("precision:float32-non-finite:%s" % name, "%s %s at %r: float32 log-abs-det %r, float64 %r" % (
+                    name, direction, float(pts[i]), float(l32[i]), float(l64[i])), case)
+                continue
+            bad = (l32 - l64).abs() > 1e-3 * (1 + l64.abs())
+            if direction == "forward" and bool(bad.any()):
+                i = int(torch.nonzero(bad)[0])
+                ck.finding("precision:float32-disagrees-with-float64:%s" % name,
+                           "%s forward at x=%r: float32 log-abs-det %r, float64 %r" % (name, float(pts[i]), float(l32[i]), float(l64[i])), case)
     # the linear family at larger widths: every parameter in a bounded box (also one-sided boxes for the diagonal
     # parameters, which make |det| very small or large while each entry stays moderate), cache on and off, both orders
     from nflows.transforms import lu, qr, svd, linear as lin, conv
